@@ -19,7 +19,7 @@ PREDS = {
     "C09": ["NoEarlyClose", "NoStall", "DoneMeansDone", "Prefix", "Complete", "CallsPrefix", "CallsComplete", "NoPanic", "Settle1", "Settle2"],
     "C10": ["DoneMeansDone", "FoldRes", "Complete", "CallsComplete", "Settle1", "NoPanic"],
     "C11": ["GenExact", "GenStops", "GenNoEarlyClose", "EmitPaced", "EmitKeepUp", "Settle2", "GenSettle", "NoPanic"],
-    "C12": ["JoinPerInput", "JoinNothingInvented", "JoinComplete", "Settle1", "Settle2", "NoPanic"],
+    "C12": ["JoinPerInput", "JoinNothingInvented", "JoinComplete", "JoinNoStall", "Settle1", "Settle2", "NoPanic"],
     "C13": ["NoEarlyClose", "Prefix", "Complete", "ThrottleWindow", "ThrottlePaced", "Settle1", "Settle2", "NoPanic"],
 }
 STAGE_INV = {"Prefix": "PrefixInv", "FoldRes": "FoldResInv", "Complete": "CompleteInv", "TakeBound": "TakeBoundInv",
@@ -223,7 +223,7 @@ MODEL_INV = {
     "Gen": {"GenExact": "GenExactInv", "EmitPaced": "EmitPacedInv", "EmitKeepUp": "EmitKeepUpInv", "GenSettle": "GenSettleInv", "Settle2": "Settle2Inv", "LiftCloses": "LiftClosesInv", "GenNoEarlyClose": "GenNoEarlyCloseInv"},
     "Throttle": {"Prefix": "PrefixInv", "Complete": "CompleteInv", "ThrottleWindow": "ThrottleWindowInv", "ThrottlePaced": "ThrottlePacedInv",
                  "Settle1": "Settle1Inv", "Settle2": "Settle2Inv", "NoEarlyClose": "NoEarlyCloseInv"},
-    "JoinStage": {"JoinPerInput": "JoinPerInputInv", "JoinNothingInvented": "JoinNothingInventedInv", "JoinComplete": "JoinCompleteInv",
+    "JoinStage": {"JoinPerInput": "JoinPerInputInv", "JoinNothingInvented": "JoinNothingInventedInv", "JoinComplete": "JoinCompleteInv", "JoinNoStall": "JoinNoStallInv",
                   "Settle1": "Settle1Inv", "Settle2": "Settle2Inv"},
     "Unbound": {"Prefix": "PrefixInv", "NeverBlocksSender": "NeverBlocksSenderInv", "LosslessAfterCancel": "LosslessAfterCancelInv",
                 "Complete": "CompleteInv", "Settle1": "Settle1Inv", "NewSettle": "NewSettleInv", "NewDelivers": "NewDeliversInv", "NoPanic": "NoPanicInv", "_": "Conservation"},
@@ -828,6 +828,14 @@ def special_scheds(pid, th, rng):
             vals = list(range(1, n + 1))
             cmds = [{"c": "recvall", "o": "out", "d": n}, {"c": "recvall", "o": "exx", "d": n}] + [B(*([S()] * 50)) for _ in range(n // 50)] + [{"c": "close", "i": 0}]
             out.append({"cfg": C(kind=kind, forked=pid == "C09", par=3, cap=50, mode="try", inputs=[vals], fail=[v for v in vals if v % 10 != 0]), "cmds": cmds, "epilogue": "drain", "origin": "many-failures"})
+    if pid == "C12":
+        # more inputs than any plausible pool of forwarders (140; 300 thorough): the values arrive on the last inputs while all the
+        # others are still open; everything is closed only afterwards
+        for k in ((140, 300) if th else (140,)):
+            for cap in (0, 1):
+                cfg = C(kind="Join", cap=cap, inputs=[[100 * (i + 1) + 1] for i in range(k)])
+                cmds = [{"c": "recvall", "o": "out", "d": 2 * k}] + [S(i) for i in range(k - 8, k)] + [S(0), S(1)] + [{"c": "close", "i": i} for i in range(k - 1, -1, -1)]
+                out.append({"cfg": cfg, "cmds": cmds, "epilogue": "drain", "origin": "very-wide-join"})
     if pid in ("C07", "C09"):
         # values first, errors afterwards (the consumer shape of the repository's own tests: ToSeq(out), then the errors): more
         # failures than any plausible fixed number of slots, but not more than the input capacity the error channel is sized by
